@@ -238,7 +238,7 @@ def _gen(tier, seed):
 RULE = ('one config = shape x per-field {plain u8, plain u16, ignored, method hash_m}; optionally PartialEq educed with the same ignore choices. '
         'Both values arbitrary incl. variant; the recording Hasher logs every write_* call as (kind, value), so equality of records is equality of the data fed for any hasher. '
         'Non-trivial = harness passed and both the same-key and the different-key witness were SATISFIED.')
-BOUNDS = dict(max_fields='3 (quick), 4 (thorough)', max_variants='3 (quick), 4 (thorough)', recorder_capacity=6, unwind=8, field_types=['u8', 'u16'],
+BOUNDS = dict(max_fields='3 (quick), 4 (thorough); plus runs of ignored fields and three 13-field shapes with their own order-keeping hasher', max_variants='3 (quick), 4 (thorough)', recorder_capacity=6, unwind=8, field_types=['u8', 'u16', "&'static u8", "&'static [u8] (sub-slices of a 4-byte static)", 'a user type named PhantomData'],
               outside=['>3 fields/variants', 'field types whose own hashing is not injective', 'unions (C20)'])
 ASSUME = ['Kani 0.68 / CBMC 6.11 / CaDiCaL; rustc nightly-2026-08-21 x86_64 dev profile',
           'the variant prefix is checked as "some function of the variant that separates variants", not as a usize index',
